@@ -154,6 +154,10 @@ class ValueGen(object):
             return r.choice(e._members)
         if family == "tuple":
             return tuple(self.hashable(r.choice(["int", "str"]), depth + 1) for _ in range(r.randint(0, 3)))
+        if family == "object" and self.classes:
+            # an instance of a user class as dictionary key / set member (instances hash by identity), with whatever fields -
+            # lists, sets, dicts included - its class has
+            return r.choice(self.classes)._make(self, max(depth, 3))
         return self.integer()
 
     def value(self, depth=0):
@@ -166,7 +170,7 @@ class ValueGen(object):
             return [self.value(depth + 1) for _ in range(n)]
         if x < 0.68:
             return tuple(self.value(depth + 1) for _ in range(n))
-        fams = ["int", "str", "bytes", "float", "bool", "tuple"] + (["enum"] if self.enums else [])
+        fams = ["int", "str", "bytes", "float", "bool", "tuple"] + (["enum"] if self.enums else []) + (["object"] if self.classes and depth < 3 else [])
         if x < 0.80:
             fam = r.choice(fams)
             if fam == "enum":
